@@ -300,6 +300,20 @@ class ImplSession:
             elif tag == 9:
                 self.evaluate_rule(ev[1])
                 return []
+            elif tag == 10:
+                # a constructor call that is rejected (ValidationError): a feature observer asked for a feature
+                # type outside its supported_feature_types. It must leave no trace on the dispatcher.
+                from job_shop_lib.dispatching.feature_observers import (FeatureType, PositionInJobObserver,
+                                                                        RemainingOperationsObserver)
+                cls, fts = [(PositionInJobObserver, [FeatureType.JOBS]),
+                            (PositionInJobObserver, [FeatureType.OPERATIONS, FeatureType.MACHINES]),
+                            (RemainingOperationsObserver, [FeatureType.OPERATIONS]),
+                            (RemainingOperationsObserver, [FeatureType.JOBS, FeatureType.OPERATIONS])][ev[1] % 4]
+                # (a SINGLE unsupported FeatureType passed without a list is accepted by the library:
+                # _get_feature_types_list returns [feature_types] before validating - outside the 20 properties,
+                # noted in DESIGN.md)
+                cls(d, feature_types=fts)
+                raise RuntimeError("the constructor accepted an unsupported feature type")
             elif tag == 8:
                 del self.calls[:]
                 self.last_step = self.env.step((ev[1], ev[2]))
